@@ -22,7 +22,7 @@ MANIFEST = {
             "dispatch of encoding classes without a class theorem, the opcode tables. Trusted: Lean kernel + bv_decide certificates; "
             "Spec/X86Decode.lean as the reading of the SDM; db/x86.js + tools/gen_c01.py (with its listed database errata); harness/driver/diff.",
 }
-MODS = ["AsmjitVerif.Props.C01", "AsmjitVerif.Props.C01Front", "AsmjitVerif.Props.C01Rows", "AsmjitVerif.Props.C01Front32", "AsmjitVerif.Props.C01Rows32", "AsmjitVerif.Props.C01FrontMem", "AsmjitVerif.Props.C01FrontMemG", "AsmjitVerif.Props.C01FrontMemV", "AsmjitVerif.Props.C01FrontMemX", "AsmjitVerif.Props.C01RowsMem", "AsmjitVerif.Props.C01FrontDec", "AsmjitVerif.Props.C01FrontMemB", "AsmjitVerif.Props.C01RowsMemB", "AsmjitVerif.Props.C01FrontLeg32", "AsmjitVerif.Props.C01FrontArith", "AsmjitVerif.Props.C01RowsArith", "AsmjitVerif.Props.C01FrontOpReg", "AsmjitVerif.Props.C01FrontLegMem", "AsmjitVerif.Props.C01RowsLegMem", "AsmjitVerif.Props.C01RowsMov", "AsmjitVerif.Props.C01FrontMr", "AsmjitVerif.Props.C01RowsMr", "AsmjitVerif.Props.C01FrontRel", "AsmjitVerif.Props.C01FrontAbs"]
+MODS = ["AsmjitVerif.Props.C01", "AsmjitVerif.Props.C01Front", "AsmjitVerif.Props.C01Rows", "AsmjitVerif.Props.C01Front32", "AsmjitVerif.Props.C01Rows32", "AsmjitVerif.Props.C01FrontMem", "AsmjitVerif.Props.C01FrontMemG", "AsmjitVerif.Props.C01FrontMemV", "AsmjitVerif.Props.C01FrontMemX", "AsmjitVerif.Props.C01RowsMem", "AsmjitVerif.Props.C01FrontDec", "AsmjitVerif.Props.C01FrontMemB", "AsmjitVerif.Props.C01RowsMemB", "AsmjitVerif.Props.C01FrontLeg32", "AsmjitVerif.Props.C01FrontArith", "AsmjitVerif.Props.C01RowsArith", "AsmjitVerif.Props.C01FrontOpReg", "AsmjitVerif.Props.C01FrontLegMem", "AsmjitVerif.Props.C01RowsLegMem", "AsmjitVerif.Props.C01RowsMov", "AsmjitVerif.Props.C01FrontMr", "AsmjitVerif.Props.C01RowsMr", "AsmjitVerif.Props.C01FrontRel", "AsmjitVerif.Props.C01FrontAbs", "AsmjitVerif.Props.C01FrontOpt"]
 BASE = c01_forms.BASE_ADDR
 
 # classes of known, not (yet) repaired findings -> stable keys (known_findings.json)
